@@ -867,11 +867,6 @@ fn part_tok(k: K, payload: &[u8]) -> String {
 fn family(rng: &mut Rng, ex: bool, sizes: &[usize], nos: &[i32]) -> Vec<String> {
     let total: usize = sizes.iter().sum();
     let k = if ex { K::I6Ex } else { K::I664 };
-    let mut g = gen_info(rng, k, total as i32);
-    if !ex {
-        g.max_clients = g.max_clients.min(64);
-        g.max_players = g.max_players.min(g.max_clients);
-    }
     let clients: Vec<GClient> = (0..total).map(|u| gen_client(rng, u, k)).collect();
     // shuffle so that the sort order is unrelated to the wire order
     let mut order: Vec<usize> = (0..total).collect();
@@ -880,6 +875,19 @@ fn family(rng: &mut Rng, ex: bool, sizes: &[usize], nos: &[i32]) -> Vec<String> 
         order.swap(i, j);
     }
     let clients: Vec<GClient> = order.iter().map(|&i| clients[i].clone()).collect();
+    family_of(rng, ex, sizes, nos, &clients)
+}
+
+/// The parts of one info whose clients are given in wire order (`sizes[i]` of them in part `i`).
+fn family_of(rng: &mut Rng, ex: bool, sizes: &[usize], nos: &[i32], clients: &[GClient]) -> Vec<String> {
+    let total: usize = sizes.iter().sum();
+    assert_eq!(total, clients.len());
+    let k = if ex { K::I6Ex } else { K::I664 };
+    let mut g = gen_info(rng, k, total as i32);
+    if !ex {
+        g.max_clients = g.max_clients.min(64);
+        g.max_players = g.max_players.min(g.max_clients);
+    }
     let mut out = vec![];
     let mut at = 0usize;
     for (pi, &sz) in sizes.iter().enumerate() {
@@ -893,6 +901,43 @@ fn family(rng: &mut Rng, ex: bool, sizes: &[usize], nos: &[i32]) -> Vec<String> 
         at += sz;
     }
     out
+}
+
+/// A group of clients that agree in the first `depth` sort fields (name, clan, country, score)
+/// and differ in the next one (for depth 4: in the flags, so there are only two of them). They are
+/// returned in *descending* order, so that merging the parts in ascending order never happens to
+/// produce the sorted arrangement.
+fn tie_group(rng: &mut Rng, depth: usize, n: usize, tag: usize) -> Vec<GClient> {
+    let base = GClient {
+        name: (*rng.pick(&[&b"(connecting)"[..], &b"nameless tee"[..], &b"tie"[..]])).to_vec(),
+        clan: format!("c{}", tag).into_bytes(),
+        country: 40 + tag as i32,
+        score: 7,
+        is_player: 1,
+    };
+    let n = if depth >= 4 { 2 } else { n };
+    (0..n)
+        .rev()
+        .map(|m| {
+            let mut c = base.clone();
+            let d = m as i32;
+            match depth {
+                1 => {
+                    c.clan = format!("k{}", m).into_bytes();
+                    c.country = rng.range(-1, 5) as i32;
+                    c.score = rng.range(-3, 3) as i32;
+                }
+                2 => {
+                    c.country = 100 + d;
+                    c.score = rng.range(-3, 3) as i32;
+                }
+                3 => c.score = 10 * d - 5,
+                // flags are compared last: spectator (1) sorts after player (0); wire `is_player`
+                _ => c.is_player = if m == 0 { 1 } else { 0 },
+            }
+            c
+        })
+        .collect()
 }
 
 fn split_sizes(rng: &mut Rng, total: usize, nparts: usize, ex: bool) -> Vec<usize> {
@@ -1218,6 +1263,83 @@ impl Domain for D {
                 // the complete ascending merge, explicitly (readable sample)
                 let steps: Vec<String> = (0..nparts).map(|x| x.to_string()).collect();
                 writeln!(w, "mf {} {} {}", parts.len(), parts.join(" "), steps.join(" ")).unwrap();
+            }
+        }
+        // clients that tie in a prefix of the sort key (same name / name+clan / name+clan+country /
+        // all but the flags), spread over different parts (for the extended version over different
+        // `iex+` packets, the main packet is always moved to the front): every permutation
+        // explicitly, then every step sequence up to parts+1 hashed
+        for depth in 1..=4usize {
+            for &ex in &[false, true] {
+                for &nparts in &[3usize, 4] {
+                    if !thorough && nparts == 4 && depth % 2 == 0 {
+                        continue;
+                    }
+                    let carriers = if ex { nparts - 1 } else { nparts };
+                    let group = tie_group(&mut rng, depth, carriers.min(3), depth);
+                    let mut per_part: Vec<Vec<GClient>> = vec![vec![]; nparts];
+                    // one filler per part, then the group members one per carrier part
+                    let mut uniq = 0usize;
+                    for pi in 0..nparts {
+                        for _ in 0..rng.below(2) + 1 {
+                            per_part[pi].push(gen_client(&mut rng, 500 + uniq, if ex { K::I6Ex } else { K::I664 }));
+                            uniq += 1;
+                        }
+                    }
+                    for (gi, c) in group.iter().enumerate() {
+                        let pi = if ex { 1 + gi % carriers } else { gi % carriers };
+                        let at = rng.below(per_part[pi].len() as u64 + 1) as usize;
+                        per_part[pi].insert(at, c.clone());
+                    }
+                    let sizes: Vec<usize> = per_part.iter().map(|v| v.len()).collect();
+                    let clients: Vec<GClient> = per_part.into_iter().flatten().collect();
+                    let nos = packet_nos(&mut rng, nparts, 63);
+                    let parts = family_of(&mut rng, ex, &sizes, &nos, &clients);
+                    let pre = format!("mf {} {}", parts.len(), parts.join(" "));
+                    // all permutations (Heap's algorithm)
+                    let mut perm: Vec<usize> = (0..nparts).collect();
+                    let mut c = vec![0usize; nparts];
+                    let emit = |perm: &Vec<usize>, w: &mut dyn Write| {
+                        let steps: Vec<String> = perm.iter().map(|x| x.to_string()).collect();
+                        writeln!(w, "{} {}", pre, steps.join(" ")).unwrap();
+                    };
+                    emit(&perm, w);
+                    let mut i = 0;
+                    while i < nparts {
+                        if c[i] < i {
+                            if i % 2 == 0 {
+                                perm.swap(0, i);
+                            } else {
+                                perm.swap(c[i], i);
+                            }
+                            emit(&perm, w);
+                            c[i] += 1;
+                            i = 0;
+                        } else {
+                            c[i] = 0;
+                            i += 1;
+                        }
+                    }
+                    writeln!(w, "mfh {} {} {}", parts.len(), parts.join(" "), nparts + 1).unwrap();
+                }
+            }
+        }
+        // the same tie groups inside one packet of the single-packet kinds
+        for depth in 1..=4usize {
+            for &k in &[K::I5, K::I6, K::I6Dp, K::I7] {
+                let mut clients = tie_group(&mut rng, if k == K::I5 { 3 } else { depth }, 3, depth);
+                if k == K::I5 {
+                    // only name and score exist
+                    for c in clients.iter_mut() {
+                        c.clan = vec![];
+                        c.country = -1;
+                        c.is_player = 0;
+                    }
+                }
+                clients.insert(1, gen_client(&mut rng, 900, k));
+                let g = gen_info(&mut rng, k, clients.len() as i32);
+                let h = header(k, &mut rng);
+                emit_p(w, &h, &flatten(&fields(k, &g, 0, 0, &clients)));
             }
         }
         // large families up to the maximum number of parts: sampled orders and repetition patterns
